@@ -1213,6 +1213,114 @@ def m_typenum_to(I, st, callee, argv, depth, t, dty):
     yield st, App('to_usize', *[('unk', a) for a in (callee.get('args') or [])])
 
 
+ORDERING = 'core::cmp::Ordering'
+
+
+@model('core::cmp::Ord::cmp', 'core::cmp::PartialOrd::partial_cmp')
+def m_cmp(I, st, callee, argv, depth, t, dty):
+    """three-way comparison of two integers (lengths): decided when both are known, otherwise three paths with the two assumptions an
+    `if a == b {..} else if a < b {..} else {..}` chain would record"""
+    a = freeze(st, deref_val(st, argv[0]))
+    b = freeze(st, deref_val(st, argv[1]))
+    partial = callee['name'] == 'partial_cmp'
+    wrap = (lambda o: Some(o)) if partial else (lambda o: o)
+    O = lambda n: Adt(ORDERING, n, [])
+    if a[0] == 'int' and b[0] == 'int':
+        yield st, wrap(O('Less' if a[1] < b[1] else ('Equal' if a[1] == b[1] else 'Greater')))
+        return
+    for s2, eq in fork_bool(I, st, I.binop(st, 'Eq', a, b)):
+        if eq:
+            yield s2, wrap(O('Equal'))
+            continue
+        for s3, lt in fork_bool(I, s2, I.binop(s2, 'Lt', a, b)):
+            yield s3, wrap(O('Less' if lt else 'Greater'))
+
+
+@model('core::slice::get')
+def m_slice_get(I, st, callee, argv, depth, t, dty):
+    base = bytes_of(st, argv[0])
+    idx = freeze(st, argv[1])
+    L = I.len_of(st, argv[0])
+    rb = range_bounds(I, st, argv[0], argv[1])
+    if rb is not None:
+        a, b = rb
+        cond = I.binop(st, 'Le', b, L)
+        for s2, ok in fork_bool(I, st, cond):
+            yield s2, (Some(mk_slice(base, a, b)) if ok else NONE)
+        return
+    cond = I.binop(st, 'Lt', idx, L)
+    for s2, ok in fork_bool(I, st, cond):
+        yield s2, (Some(App('index', base, idx)) if ok else NONE)
+
+
+@model('core::slice::split_first_chunk', 'core::slice::first_chunk')
+def m_split_first_chunk(I, st, callee, argv, depth, t, dty):
+    base = bytes_of(st, argv[0])
+    L = I.len_of(st, argv[0])
+    n = None
+    for a in (callee.get('args') or []):
+        if re.fullmatch(r'\d+', str(a)):
+            n = int(a)
+    if n is None:
+        m = re.search(r'\[u8; (\d+)\]', dty or '')
+        n = int(m.group(1)) if m else None
+    if n is None:
+        yield st, App(callee['name'], base)
+        return
+    cond = I.binop(st, 'Le', Int(n), L)
+    for s2, ok in fork_bool(I, st, cond):
+        if not ok:
+            yield s2, NONE
+        elif callee['name'] == 'first_chunk':
+            yield s2, Some(mk_slice(base, Int(0), Int(n)))
+        else:
+            yield s2, Some(('tuple', (mk_slice(base, Int(0), Int(n)), mk_slice(base, Int(n), L))))
+
+
+@model('core::result::Result::transpose')
+def m_res_transpose(I, st, callee, argv, depth, t, dty):
+    # Result<Option<T>, E> -> Option<Result<T, E>>
+    for s2, name, payload in I.fork_result(st, argv[0], 'Ok', 'Err'):
+        if name == 'Err':
+            yield s2, Some(Err(payload))
+            continue
+        for s3, n2, p2 in I.fork_result(s2, payload, 'Some', 'None'):
+            yield s3, (Some(Ok(p2)) if n2 == 'Some' else NONE)
+
+
+@model('core::option::Option::transpose')
+def m_opt_transpose(I, st, callee, argv, depth, t, dty):
+    # Option<Result<T, E>> -> Result<Option<T>, E>
+    for s2, name, payload in I.fork_result(st, argv[0], 'Some', 'None'):
+        if name == 'None':
+            yield s2, Ok(NONE)
+            continue
+        for s3, n2, p2 in I.fork_result(s2, payload, 'Ok', 'Err'):
+            yield s3, (Ok(Some(p2)) if n2 == 'Ok' else Err(p2))
+
+
+@model('generic_array::sequence::GenericSequence::generate')
+def m_ga_generate(I, st, callee, argv, depth, t, dty):
+    n = ty_bytes_len(dty or '')
+    if n is None:
+        for a in (callee.get('args') or []):
+            n = n if n is not None else ty_bytes_len(a)
+    if n is None or n > 4096:
+        yield st, App('generate', freeze(st, argv[0]))
+        return
+    def go(s, i, acc):
+        if i == n:
+            vals = [freeze(s, x) for x in acc]
+            if all(x[0] == 'int' for x in vals):
+                yield s, Bytes(bytes(x[1] & 0xff for x in vals))
+            else:
+                yield s, ('array', tuple(vals))
+            return
+        for s2, y in I.apply_callable(s, argv[0], [Int(i)], depth, t):
+            yield from go(s2, i + 1, acc + [y])
+    yield from go(st, 0, [])
+
+
 @model('core::ops::bit::BitXorAssign::bitxor_assign')
 def m_bxa(I, st, callee, argv, depth, t, dty):
     lhs = argv[0]
